@@ -330,5 +330,22 @@ _EXTRA12 = {
  'C13': ' The reflected conical angle keeps its half-open interval (C13-R15, defect F49 - fixed).',
  'C18': ' Every header field of a kernel block is bounded below, shift counts above too, on every installing path (C18-R13, defect F47 - fixed).',
 }
+_EXTRA12.update({
+ 'C01': ' What acts on "source and mask are one buffer" has compared the offsets (C01-R16).',
+ 'C02': ' No 64-bit division takes a numerator formed in 32 bits (C02-R28); pixbuf detection compares the offsets (C02-R29).',
+ 'C03': ' A signed coordinate is split with shift and mask, never / or % (C03-R16).',
+ 'C06': ' Overflow variables are computed at full width (C06-R13 = C07-R1).',
+ 'C07': ' Allocation failures in the region units are never swallowed (C07-R18 = C15-R7).',
+ 'C08': ' A refused set_filter stores nothing (C08-R20 = C15-R9); 64-bit divisions have 64-bit numerators (C08-R21).',
+ 'C10': ' The YUV readers clamp signed (C10-R18); formats without channel sizes expand as a8r8g8b8 (C10-R19).',
+ 'C11': ' Floating-point conversions are guarded against NaN as well (C11-R6, defect F50 - fixed).',
+ 'C12': ' pixman_edge_step keeps the error term in the closed interval [-dy, 0] in both directions (C12-R18, defect F51 - fixed); operators with a zero-source effect are never refused by the extents helper (C12-R19); products with an edge increment are 64-bit (C12-R20).',
+ 'C14': ' A refused setter stores nothing (C14-R12); boolean arguments of the combiner lookup are truth values (C14-R13).',
+ 'C15': ' No allocation size is a widened 32-bit product (C15-R13).',
+ 'C16': ' Every return of a drawing entry point passes the validation of its sources (C16-R8, defect F52 - fixed).',
+ 'C17': ' The MRU tail is taken for a glyph only under a live-glyph test (C17-R10).',
+ 'C19': ' Coordinates are split with floor semantics (C19-R15); box32 coordinates are never truncated to 16 bits (C19-R16).',
+ 'C20': ' A half-built image is released raw, not through the finaliser (C20-R10).',
+})
 for _k, _v in _EXTRA12.items():
     PROPS[_k]['text'] = PROPS[_k]['text'].rstrip() + _v
